@@ -30,16 +30,19 @@ class Engine:
         return self._imports
 
     # -- summaries (bottom-up on demand; recursion is an analysis error)
-    def summary(self, fi, clsbind=None, inline=frozenset()):
-        key = (fi.qualname, clsbind, frozenset(inline))
+    def summary(self, fi, clsbind=None, inline=frozenset(), funargs=()):
+        key = (fi.qualname, clsbind, frozenset(inline), tuple(funargs))
         sm = self._summaries.get(key)
         if sm is not None:
             return sm
-        if key in self._in_progress:
-            raise AnalysisError("recursive call cycle through %s: %s" % (fi.qualname, " -> ".join(k[0] for k in self._in_progress)))
+        if key in self._in_progress or any((k[0], k[1], k[3]) == (fi.qualname, clsbind, tuple(funargs)) for k in self._in_progress):
+            # a recursive call: not summarised (the walker has no fixpoint); the call is treated as
+            # opaque and the run settles as "definite violations, else no verdict"
+            self.unknown_calls.setdefault(("recursive:" + fi.qualname, fi.qualname), "recursive call of %s (cycle: %s)" % (fi.qualname, " -> ".join(k[0] for k in self._in_progress) + " -> " + fi.qualname))
+            return None
         self._in_progress.append(key)
         try:
-            sm = build_summary(self, fi, clsbind, frozenset(inline))
+            sm = build_summary(self, fi, clsbind, frozenset(inline), tuple(funargs))
         finally:
             self._in_progress.pop()
         self._summaries[key] = sm
@@ -47,9 +50,18 @@ class Engine:
         self.stats["paths"] += sm.npaths
         return sm
 
-    def walk(self, qualname, clsbind=None, inline=frozenset()):
-        """summary of an anchor function by qualified name (vanished anchor -> AnalysisError)"""
-        return self.summary(self.prog.func(qualname), clsbind, inline)
+    def walk(self, qualname, clsbind=None, inline=None):
+        """summary of an anchor function by qualified name (vanished anchor -> AnalysisError).
+        Unless the caller names the inlined callees itself, private helpers of the anchor's own
+        module (leading underscore) are inlined path by path, so that extracting part of an anchor
+        into a helper does not hide its events and guards from the rules."""
+        fi = self.prog.func(qualname)
+        if inline is None:
+            inline = self.private_helpers(fi.mod.short) - {qualname}
+        return self.summary(fi, clsbind, inline)
+
+    def private_helpers(self, short):
+        return frozenset(q for q, f in self.prog.funcs.items() if f.mod.short == short and f.parent is None and f.cls is None and q.split(".")[-1].startswith("_") and not q.split(".")[-1].startswith("__"))
 
     def repo_call(self, qualname, *args, clsbind=None):
         """the term of a call of an anchor function (registers it for expand())"""
@@ -106,6 +118,30 @@ class Engine:
                 t = self.static_term(m, vals[0])
         self._const_lit[dotted] = t
         return t
+
+    def immutable_const(self, short, name):
+        """constant-fold a module constant bound exactly once to an immutable literal (int, str,
+        bytes, float, bool, None, or a tuple of such) and never declared global in a function"""
+        key = (short, name)
+        cache = self.__dict__.setdefault("_imm", {})
+        if key in cache:
+            return cache[key]
+        out = None
+        m = self.prog.by_short.get(short)
+        vals = m.consts.get(name, []) if m else []
+        if len(vals) == 1:
+            try:
+                v = ast.literal_eval(vals[0])
+            except Exception:
+                v = self
+            def imm(x):
+                return isinstance(x, (int, str, bytes, float, bool, type(None))) or (isinstance(x, tuple) and all(imm(y) for y in x))
+            if v is not self and imm(v) and not isinstance(v, tuple):
+                rebound = any(isinstance(g, ast.Global) and name in g.names for g in ast.walk(m.tree))
+                if not rebound:
+                    out = C(v)
+        cache[key] = out
+        return out
 
     def static_term(self, mod, node):
         """term of a module-level expression (constants, displays, names, simple calls)"""
